@@ -131,6 +131,9 @@ func (s Server) Serve(c context.Context, conn network.Conn) (err error) {
 		// Use a new variable to hold the standard context to avoid modify the initial
 		// context.
 		cc = c
+
+		// traceStarted is true between a DoStart and the matching DoFinish
+		traceStarted bool
 	)
 
 	// for sensing connection close
@@ -150,10 +153,14 @@ func (s Server) Serve(c context.Context, conn network.Conn) (err error) {
 				}
 				s.eventStackPool.Put(eventsToTrigger)
 			}
-			if shouldRecordInTraceError(err) {
-				traceCtl.DoFinish(cc, ctx, err)
-			} else {
-				traceCtl.DoFinish(cc, ctx, nil)
+			// the loop may already have finished the last request (keep-alive
+			// connection closing down): only finish what has been started
+			if traceStarted {
+				if shouldRecordInTraceError(err) {
+					traceCtl.DoFinish(cc, ctx, err)
+				} else {
+					traceCtl.DoFinish(cc, ctx, nil)
+				}
 			}
 		}
 
@@ -212,6 +219,7 @@ func (s Server) Serve(c context.Context, conn network.Conn) (err error) {
 
 		if s.EnableTrace {
 			cc = traceCtl.DoStart(c, ctx)
+			traceStarted = true
 			internalStats.Record(ctx.GetTraceInfo(), stats.ReadHeaderStart, err)
 			eventsToTrigger.push(func(ti traceinfo.TraceInfo, err error) {
 				internalStats.Record(ti, stats.ReadHeaderFinish, err)
@@ -440,6 +448,7 @@ func (s Server) Serve(c context.Context, conn network.Conn) (err error) {
 			} else {
 				traceCtl.DoFinish(cc, ctx, nil)
 			}
+			traceStarted = false
 		}
 
 		ctx.ResetWithoutConn()
